@@ -116,6 +116,12 @@ class C18(Prop):
         c.untyped = 0.3                             # bare variables as operands: nothing swallows a repeated sample
         p = lang.gen_phi(rng, c, rng.randint(0, c.max_depth))
         q = lang.gen_phi(rng, c, rng.randint(0, c.max_depth))
+        if law == 'implies' and rng.random() < 0.5:
+            # the antecedent is a bare signal that occurs again as a direct operand inside the consequent
+            # (`x implies (x or y)`): both occurrences read the very same sample list
+            p = lang.V(c.vars[0])
+            other = lang.V(c.vars[-1]) if rng.random() < 0.6 else q
+            q = lang.N(rng.choice(['or', 'and', 'implies', 'iff', 'xor']), *rng.sample([p, other], 2))
         i1, i2 = lang.gen_interval(rng, c), lang.gen_interval(rng, c)
         names = sorted(set(lang.variables(p) + lang.variables(q))) or ['x']
         n = rng.randint(2, 8)
@@ -171,6 +177,17 @@ class C18(Prop):
         lo = max(ref_dense.Q(fa[0][0]), ref_dense.Q(fb[0][0]), Fr(0))
         hi = min(ref_dense.Q(fa[-1][0]), ref_dense.Q(fb[-1][0]), sig[names[0]][-1][0])
         v.nontrivial = len(case['cuts']) >= 1 and hi > lo
+        if case['law'] in ('implies', 'dual-once-hist', 'dual-once-hist-unb') and not (
+                any(x != x for x in el.vs) or any(x != x for x in er.vs)):
+            # "identical signals": the two sides of these laws have the same operators over the same operands fed with
+            # the same batches, so they also cover the same stretch of time (a side that silently loses its first
+            # samples is not the same signal)
+            if ref_dense.Q(fa[0][0]) != ref_dense.Q(fb[0][0]) or ref_dense.Q(fa[-1][0]) != ref_dense.Q(fb[-1][0]):
+                v.bad('law-coverage:' + case['law'], 'dense online monitor (cuts %s, repeated frontier=%s), law %s: %s covers '
+                      '[%s, %s] but %s covers [%s, %s]; signals=%s' % (
+                          case['cuts'], case.get('repeat_frontier'), case['law'], lang.to_text(lhs), fa[0][0], fa[-1][0],
+                          lang.to_text(rhs), fb[0][0], fb[-1][0], case['signals']))
+                return v
         if hi < lo:
             return v
         for t in ref_dense.probe_times(el, list(fa) + list(fb), lo, hi):
